@@ -786,11 +786,13 @@ def _writer_ids(ctx, w):
     return out
 
 
-def _is_decode(e, var):
-    """pickle.loads(b64decode(var))"""
-    return isinstance(e, ast.Call) and (call_name(e) or "").endswith("loads") and len(e.args) == 1 \
-        and isinstance(e.args[0], ast.Call) and (call_name(e.args[0]) or "").endswith("b64decode") \
-        and len(e.args[0].args) == 1 and _is_name(e.args[0].args[0], var)
+def _is_decode(e, var, fn=None):
+    """pickle.loads(b64decode(var)) -- the inner call possibly held in a local (`raw = b64decode(var)`)"""
+    if not (isinstance(e, ast.Call) and (call_name(e) or "").endswith("loads") and len(e.args) == 1):
+        return False
+    inner = _local_value(fn, e.args[0]) if fn is not None else e.args[0]
+    return isinstance(inner, ast.Call) and (call_name(inner) or "").endswith("b64decode") \
+        and len(inner.args) == 1 and _is_name(inner.args[0], var)
 
 
 def _encoded_payload(e):
@@ -855,7 +857,7 @@ def r5(ctx):
             decoded = lookups = False
             for st in n.body:
                 for x in ast.walk(st):
-                    if _is_decode(x, var):
+                    if _is_decode(x, var, rd.node):
                         decoded = True
                     if isinstance(x, ast.Subscript) and _is_name(x.slice, var) and isinstance(x.value, ast.Attribute):
                         lookups = True
@@ -1273,3 +1275,79 @@ R.mutant("serializer-column-guard-loses-table-test", "ext/serializer.py",
          sub("        elif isinstance(obj, Column) and isinstance(obj.table, Table):\n", "        elif isinstance(obj, Column):\n"), "C51-R5")
 R.mutant("deserializer-mapperprop-test-not-wrapped", "ext/serializer.py",
          sub("            elif type_ == \"mapperprop\":\n", "            elif not type_ == \"mapperprop\":\n"), "C51-R6")
+
+# ---- robustify (rob-H1): behaviour-preserving refactorings that must stay silent, and the same shapes broken
+_GS_UPDATE = ("        state_dict.update(\n            (k, self.__dict__[k])\n            for k in (\n                \"_pending_mutations\",\n"
+              "                \"modified\",\n                \"expired\",\n                \"callables\",\n                \"key\",\n"
+              "                \"parents\",\n                \"load_options\",\n                \"class_\",\n                \"expired_attributes\",\n"
+              "                \"info\",\n            )\n            if k in self.__dict__\n        )\n")
+_GS_LOOP = ("        own_dict = self.__dict__\n        for attrname in (\n            \"_pending_mutations\",\n            \"modified\",\n"
+            "            \"expired\",\n            \"callables\",\n            \"key\",\n            \"parents\",\n            \"load_options\",\n"
+            "            \"class_\",\n            \"expired_attributes\",\n            \"info\",\n        ):\n"
+            "            if attrname in own_dict:\n                state_dict[attrname] = own_dict[attrname]\n")
+_SS_EXPIRED = ("            self.expired_attributes = state_dict[\"expired_attributes\"]\n        else:\n"
+               "            if \"expired_attributes\" in state_dict:\n                self.expired_attributes = state_dict[\"expired_attributes\"]\n"
+               "            else:\n                self.expired_attributes = set()\n")
+_SS_BULK = ("        self.__dict__.update(\n            [\n                (k, state_dict[k])\n                for k in (\"key\", \"load_options\")\n"
+            "                if k in state_dict\n            ]\n        )\n")
+
+
+def _ss_loop(names):
+    return (f"        restored = {{}}\n        for attrname in {names}:\n            if attrname in state_dict:\n"
+            "                restored[attrname] = state_dict[attrname]\n        self.__dict__.update(restored)\n")
+
+
+# rfH_3: generator / list-comprehension dict.update -> loops, self.__dict__ alias, else: if -> elif
+R.mutant("benign-rob-instancestate-getstate-update-as-loop", "orm/state.py", sub(_GS_UPDATE, _GS_LOOP), None)
+R.mutant("benign-rob-instancestate-setstate-elif-and-loop", "orm/state.py",
+         chain(sub(_SS_EXPIRED, "            self.expired_attributes = state_dict[\"expired_attributes\"]\n"
+                                "        elif \"expired_attributes\" in state_dict:\n            self.expired_attributes = state_dict[\"expired_attributes\"]\n"
+                                "        else:\n            self.expired_attributes = set()\n"),
+               sub(_SS_BULK, _ss_loop("(\"key\", \"load_options\")"))), None)
+R.mutant("benign-rob-instancestate-getstate-update-dict-comprehension", "orm/state.py",
+         chain(sub("        state_dict.update(\n            (k, self.__dict__[k])\n", "        state_dict.update({\n            k: self.__dict__[k]\n"),
+               sub("            if k in self.__dict__\n        )\n", "            if k in self.__dict__\n        })\n")), None)
+R.mutant("rob-instancestate-setstate-loop-drops-key", "orm/state.py", sub(_SS_BULK, _ss_loop("(\"load_options\",)")), "C51-R7")
+R.mutant("rob-instancestate-getstate-loop-manager-not-last", "orm/state.py",
+         chain(sub(_GS_UPDATE, ""), sub("        state_dict[\"manager\"] = self.manager._serialize(self, state_dict)\n\n",
+                                        "        state_dict[\"manager\"] = self.manager._serialize(self, state_dict)\n" + _GS_LOOP + "\n")), "C51-R2")
+# rfH_4: inverted if/else in the Table branch, _annotations alias, f-string -> %; decode pair extracted into a helper
+_TB_OLD = ("            if \"parententity\" in obj._annotations:\n                id_ = \"mapper_selectable:\" + b64encode(\n"
+           "                    pickle.dumps(obj._annotations[\"parententity\"].class_)\n                )\n"
+           "            else:\n                id_ = f\"table:{obj.key}\"\n")
+
+
+def _tb_new(test="\"parententity\" not in annotations", table_field="obj.key"):
+    return ("            annotations = obj._annotations\n"
+            f"            if {test}:\n                id_ = \"table:%s\" % ({table_field},)\n            else:\n"
+            "                parent_cls = annotations[\"parententity\"].class_\n"
+            "                id_ = \"mapper_selectable:\" + b64encode(\n                    pickle.dumps(parent_cls)\n                )\n")
+
+
+def _load_class_refactor(helper, call):
+    return chain(sub("pickle.loads(b64decode(clsarg))", call.format("clsarg")), sub("pickle.loads(b64decode(args))", call.format("args"), count=2),
+                 sub("pickle.loads(b64decode(mapper))", call.format("mapper")), helper)
+
+
+_LC_DEF = "    @staticmethod\n    def _load_class(encoded):\n        return {body}\n\n    def persistent_load(self, id_):\n"
+R.mutant("benign-rob-serializer-table-branch-inverted-percent-format", "ext/serializer.py", sub(_TB_OLD, _tb_new()), None)
+R.mutant("benign-rob-deserializer-decode-in-staticmethod", "ext/serializer.py",
+         _load_class_refactor(sub("    def persistent_load(self, id_):\n", _LC_DEF.format(body="pickle.loads(b64decode(encoded))")),
+                              "self._load_class({})"), None)
+R.mutant("benign-rob-deserializer-decode-in-module-function", "ext/serializer.py",
+         _load_class_refactor(sub("class Deserializer(pickle.Unpickler):\n",
+                                  "def _unpickle_b64(text):\n    raw = b64decode(text)\n    return pickle.loads(raw)\n\n\nclass Deserializer(pickle.Unpickler):\n"),
+                              "_unpickle_b64({})"), None)
+R.mutant("benign-rob-serializer-column-id-str-format", "ext/serializer.py",
+         sub("id_ = f\"column:{obj.table.key}:{obj.key}\"", "id_ = \"column:{}:{}\".format(obj.table.key, obj.key)"), None)
+R.mutant("benign-rob-serializer-ids-returned-directly", "ext/serializer.py",
+         chain(sub("            id_ = \"session:\"\n", "            return \"session:\"\n"), sub("            id_ = \"engine:\"\n", "            return \"engine:\"\n"),
+               sub("            id_ = \"mapper:\" + b64encode(pickle.dumps(obj.class_))\n", "            return \"mapper:\" + b64encode(pickle.dumps(obj.class_))\n")), None)
+R.mutant("rob-serializer-inverted-table-branch-id-from-name", "ext/serializer.py", sub(_TB_OLD, _tb_new(table_field="obj.name")), "C51-R5")
+R.mutant("rob-serializer-inverted-table-branch-test-not-inverted", "ext/serializer.py",
+         sub(_TB_OLD, _tb_new(test="\"parententity\" in annotations")), "C51-R6")
+R.mutant("rob-deserializer-decode-helper-skips-b64decode", "ext/serializer.py",
+         _load_class_refactor(sub("    def persistent_load(self, id_):\n", _LC_DEF.format(body="pickle.loads(encoded)")),
+                              "self._load_class({})"), "C51-R5")
+R.mutant("rob-serializer-percent-format-extra-field", "ext/serializer.py",
+         sub(_TB_OLD, _tb_new().replace("\"table:%s\" % (obj.key,)", "\"table:%s:%s\" % (obj.schema, obj.key)")), "C51-R2")
